@@ -19,15 +19,9 @@ Print Assumptions C15_confined.
 Theorem C15_listing_oracle : forall cfg before during after, tmp_ok cfg before during after = true ->
   (incl before after /\ incl after before) /\
   forall l, In l during -> incl before l /\
-    exists extra, (extra = [] \/ exists d, extra = [d] /\ direct_child cfg d = true) /\
-                  forall x, In x l -> In x before \/ In x extra.
+    forall x, In x l -> In x before \/ exists rest, x = cfg ++ [47] ++ rest.
 Proof. exact tmp_ok_spec. Qed.
 Print Assumptions C15_listing_oracle.
-
-Theorem C15_direct_child : forall cfg d, direct_child cfg d = true ->
-  exists name, d = cfg ++ [47] ++ name /\ name <> [] /\ has_sep name = false.
-Proof. exact direct_child_spec. Qed.
-Print Assumptions C15_direct_child.
 
 Theorem C15_open_files_oracle : forall cfg opens, tmp_open_ok cfg opens = true ->
   forall l p, In l opens -> In p l -> exists rest, p = cfg ++ [47] ++ rest.
@@ -43,7 +37,8 @@ Example C15_nonvacuous :
   t_entries (trun (mkT e0 None 0) (TBuild [46; 116] :: script)) = e0 /\
   tmp_ok [99] b [[99; 47; 46; 116] :: b; b] b = true /\
   tmp_ok [99] b [[111; 47; 46; 116] :: b] b = false /\          (* created under TMPDIR instead *)
-  tmp_ok [99] b [[99; 47; 46; 116] :: [99; 47; 46; 116; 47; 120] :: b] b = false /\   (* visible chunk file *)
+  tmp_ok [99] b [[99; 47; 46; 116] :: [99; 47; 46; 116; 47; 120] :: b] b = true /\    (* a visible chunk file inside the sorter's directory is allowed *)
+  tmp_ok [99] b [[99; 47; 46; 116] :: [99; 120] :: b] b = false /\                    (* "cx": a sibling of the configured directory *)
   tmp_ok [99] b [b] ([99; 47; 46; 116] :: b) = false.            (* left behind *)
 Proof.
   split; [intros [H|[H|[]]]; discriminate|]. split; [cbn; tauto|].
